@@ -609,6 +609,9 @@ func runClusterCase(rng *rand.Rand, thorough bool, out *bufio.Writer, st *stats,
 	case 1:
 		runShutdownLitmus(rng, out, st, caseNo)
 		return
+	case 2:
+		runJoinLitmus(rng, out, st, caseNo)
+		return
 	}
 	h := &hist{t0: time.Now(), seenS: map[string]bool{}}
 	nsrv := 3
@@ -1171,6 +1174,172 @@ func runShutdownLitmus(rng *rand.Rand, out *bufio.Writer, st *stats, caseNo int)
 		c.startNodeP(n)
 		time.Sleep(time.Duration(200+rng.Intn(600)) * time.Millisecond)
 	}
+	h.rec("Q %d", h.now())
+	time.Sleep(15 * time.Second)
+	for k := 0; k < 3; k++ {
+		if l := c.leader(); l != nil {
+			c.apply(l, "a")
+		}
+		time.Sleep(300 * time.Millisecond)
+	}
+	time.Sleep(2 * time.Second)
+	c.wg.Wait()
+	c.dump("final")
+	c.mu.Lock()
+	c.stopped = true
+	c.mu.Unlock()
+	for _, n := range c.nodes[1:] {
+		if n.up {
+			c.crash(n)
+		}
+	}
+	h.mu.Lock()
+	lines := h.lines
+	h.mu.Unlock()
+	fmt.Fprintf(out, "CL %d %d\n", caseNo, nsrv)
+	fmt.Fprintln(out, strconv.Itoa(len(lines))+" ; "+strings.Join(lines, " ; "))
+	st.Cases++
+	st.Distinct++
+}
+
+// runJoinLitmus (C02/C12/C07): a fourth, empty server joins a cluster whose log has been compacted behind
+// a snapshot, so it must be brought in by InstallSnapshot - optionally at the very moment the leader
+// is finalising a newer snapshot (sink closed and listed, position not yet recorded), or while the
+// leader / the joiner is stopped and restarted.
+func runJoinLitmus(rng *rand.Rand, out *bufio.Writer, st *stats, caseNo int) {
+	h := &hist{t0: time.Now(), seenS: map[string]bool{}}
+	nsrv := 4
+	c := &cluster{rng: rng, h: h, blocked: map[[2]int]bool{}, holdMs: map[[2]int]int{}, delayMs: 1 + rng.Intn(3)}
+	c.slowFSM = rng.Intn(3) == 0
+	_, c.inj = raft.NewInmemTransportWithTimeout("inj", 80*time.Millisecond)
+	c.nodes = []*cnode{nil}
+	var cfg raft.Configuration
+	mono := rng.Intn(3) == 0
+	for i := 1; i <= nsrv; i++ {
+		n := &cnode{id: i, addr: addrOf(i), st: &cstore{InmemStore: raft.NewInmemStore(), mono: mono}, snaps: &snapStore{c: &ctl{failAt: -1, crashAt: -1}}}
+		c.nodes = append(c.nodes, n)
+		if i < nsrv {
+			cfg.Servers = append(cfg.Servers, raft.Server{Suffrage: raft.Voter, ID: sidOf(i), Address: n.addr})
+		}
+	}
+	h.rec("C %d %d", nsrv, b2i(mono))
+	for _, n := range c.nodes[1:] {
+		c.startNodeP(n)
+	}
+	_ = c.nodes[1].r.BootstrapCluster(cfg).Error()
+	time.Sleep(500 * time.Millisecond)
+	writes := func(m int) {
+		for k := 0; k < m; k++ {
+			if l := c.leader(); l != nil {
+				c.apply(l, "a")
+			}
+			time.Sleep(time.Duration(3+rng.Intn(20)) * time.Millisecond)
+		}
+	}
+	snapErr := func(r *raft.Raft) error {
+		err := r.Snapshot().Error()
+		if errors.Is(err, raft.ErrNothingNewToSnapshot) {
+			return nil
+		}
+		return err
+	}
+	writes(4 + rng.Intn(6))
+	if l := c.leader(); l != nil {
+		_ = snapErr(l.r) // the first snapshot: the log is compacted behind it (TrailingLogs = 3)
+	}
+	writes(4 + rng.Intn(6))
+	joiner := c.nodes[nsrv]
+	add := func() {
+		for try := 0; try < 6; try++ {
+			l := c.leader()
+			if l == nil {
+				time.Sleep(200 * time.Millisecond)
+				continue
+			}
+			var err error
+			if rng.Intn(2) == 0 {
+				err = l.r.AddVoter(sidOf(joiner.id), joiner.addr, 0, time.Second).Error()
+			} else {
+				err = l.r.AddNonvoter(sidOf(joiner.id), joiner.addr, 0, time.Second).Error()
+			}
+			if err == nil {
+				return
+			}
+			time.Sleep(200 * time.Millisecond)
+		}
+	}
+	variant := []int{0, 1, 1, 2, 3}[rng.Intn(5)]
+	switch variant {
+	case 0: // plain
+		add()
+	case 1: // the leader is finalising a newer snapshot when the joiner asks for one
+		if l := c.leader(); l != nil {
+			l.snaps.mu.Lock()
+			l.snaps.closeDelay = time.Duration(100+rng.Intn(300)) * time.Millisecond
+			l.snaps.mu.Unlock()
+			c.callWith(l, "s", snapErr)
+			for k := 0; k < 200; k++ {
+				l.snaps.mu.Lock()
+				closing := l.snaps.closing
+				l.snaps.mu.Unlock()
+				if closing {
+					break
+				}
+				time.Sleep(2 * time.Millisecond)
+			}
+			add()
+			l.snaps.mu.Lock()
+			l.snaps.closeDelay = 0
+			l.snaps.mu.Unlock()
+		}
+	case 2: // the leader is stopped while the joiner is being brought in
+		l := c.leader()
+		go add()
+		time.Sleep(time.Duration(rng.Intn(30)) * time.Millisecond)
+		if l != nil {
+			c.crash(l)
+			time.Sleep(time.Duration(300+rng.Intn(400)) * time.Millisecond)
+			c.startNodeP(l)
+		}
+		time.Sleep(1500 * time.Millisecond)
+	default: // the joiner is stopped while it is being brought in
+		go add()
+		time.Sleep(time.Duration(rng.Intn(30)) * time.Millisecond)
+		c.crash(joiner)
+		time.Sleep(time.Duration(300+rng.Intn(400)) * time.Millisecond)
+		c.startNodeP(joiner)
+		time.Sleep(1500 * time.Millisecond)
+	}
+	st.Hist[fmt.Sprintf("join-litmus-%d", variant)]++
+	writes(3 + rng.Intn(5))
+	// make sure the joiner is a member before the quiet period (the final monitors expect every server to hold the history)
+	for try := 0; try < 5; try++ {
+		l := c.leader()
+		if l == nil {
+			time.Sleep(300 * time.Millisecond)
+			continue
+		}
+		f := l.r.GetConfiguration()
+		in := false
+		if f.Error() == nil {
+			for _, s := range f.Configuration().Servers {
+				if s.ID == sidOf(joiner.id) {
+					in = true
+				}
+			}
+		}
+		if in {
+			break
+		}
+		_ = l.r.AddNonvoter(sidOf(joiner.id), joiner.addr, 0, time.Second).Error()
+		time.Sleep(300 * time.Millisecond)
+	}
+	for _, n := range c.nodes[1:] {
+		if !n.up {
+			c.startNodeP(n)
+		}
+	}
+	h.rec("HEALALL %d", h.now())
 	h.rec("Q %d", h.now())
 	time.Sleep(15 * time.Second)
 	for k := 0; k < 3; k++ {
